@@ -422,7 +422,12 @@ impl<'a> Compiler<'a> {
                 let name = self
                     .current_namespace
                     .iter()
-                    .take(self.current_namespace.len() - super_depth)
+                    .take(
+                        self.current_namespace
+                            .len()
+                            .checked_sub(super_depth)
+                            .ok_or_else(|| self.error(CompilationErrorPayload::SuperLimitReached))?,
+                    )
                     .flat_map(|x| [x.as_ref(), "."])
                     .chain(std::iter::once(suffix.unwrap_or(alias)))
                     .collect::<String>();
@@ -444,7 +449,14 @@ impl<'a> Compiler<'a> {
                     let name = self
                         .current_namespace
                         .iter()
-                        .take(self.current_namespace.len() - super_depth)
+                        .take(
+                            self.current_namespace
+                                .len()
+                                .checked_sub(super_depth)
+                                .ok_or_else(|| {
+                                    self.error(CompilationErrorPayload::SuperLimitReached)
+                                })?,
+                        )
                         .flat_map(|x| [x.as_ref(), "."])
                         .chain([s.unwrap_or(alias), ".", suffix].iter().copied())
                         .collect::<String>();
